@@ -1,6 +1,7 @@
 """C18 - the LFU cache is a bounded least-frequently-used map.
 
-proof:           coq/theories/Lfu/{LfuModel,LfuSpec,LfuProofs}.v, Properties/C18.v
+proof:           coq/theories/Lfu/{LfuModel,LfuSpec,LfuInv,LfuSpecProps,LfuProofs,
+                 LfuRtModel,LfuRtProofs}.v, Properties/C18.v
 correspondence:  (a) exhaustive get/set sequences: per-step observations (get
                  output + the walked linked structure) folded into a checksum,
                  summed per first-op group, computed by the model inside Coq
@@ -447,11 +448,15 @@ def rt_traces(ctx, n, maxlen):
             ctx.count("rt:with_eviction")
         if err:
             ctx.fail({"capacity": cap, "rt_ops": ops, "error": err}, "LFUCache with report types deviates from a bounded LFU map: " + err)
-        cases.append(("rt_trace_sx %d %s" % (cap, coq_rops(ops)), [outs, states], {"capacity": cap, "rt_ops": ops}))
+        cops = coq_rops(ops)
+        cases.append(("rt_outs_sx %d %s" % (cap, cops), [outs, states[-1] if states else []], {"capacity": cap, "rt_ops": ops}))
+        for j in range(0, (len(ops) + 9) // 10):
+            cases.append(("rt_states_sx %d %s %d" % (cap, cops, j), states[10 * j:10 * j + 10],
+                          {"capacity": cap, "rt_ops": ops, "structures_after_steps": [10 * j, 10 * j + 9]}))
         if i < 1:
             ctx.sample({"capacity": cap, "rt_ops": ops[:20], "outs": outs[:20]})
     ctx.coq_cases("lfu_rt_traces", "From DD Require Import Lfu.LfuModel Lfu.LfuRtModel Lfu.LfuRtShow.\nLocal Open Scope Z_scope.",
-                  cases, shard=50, label="report_type_traces")
+                  cases, shard=30, label="report_type_traces")  # small shards: Sx.run_cases overflows the VM stack when a shard has ~100 mismatches
 
 
 # ---- concurrency ------------------------------------------------------------
